@@ -98,6 +98,13 @@ fn segs_intersect(a: P2, b: P2, c: P2, d: P2) -> bool {
     }
     on_seg(c, d, a) || on_seg(c, d, b) || on_seg(a, b, c) || on_seg(a, b, d)
 }
+/// the vertex list without consecutive repetitions (cyclically: a closing point equal to the first is one too)
+pub fn dedup_cyclic(v: &[P2]) -> Vec<P2> {
+    let mut o: Vec<P2> = vec![];
+    for p in v { if o.last() != Some(p) { o.push(*p); } }
+    while o.len() > 1 && o.first() == o.last() { o.pop(); }
+    o
+}
 pub fn is_simple(v: &[P2]) -> bool {
     let n = v.len();
     if n < 3 {
@@ -180,9 +187,9 @@ pub fn oracle(line: &str) -> String {
         Some(q) => q,
         None => return "na".into(),
     };
-    // domain
+    // domain: simple polygons, possibly listed with repeated vertices (consecutive duplicates, closing point = first point)
     match &shp {
-        Shp::Poly(v) if !is_simple(v) => return "na".into(),
+        Shp::Poly(v) if !is_simple(&dedup_cyclic(v)) => return "na".into(),
         Shp::Path(_, v) if !manhattan(v) => return "na".into(),
         _ => {}
     }
@@ -334,6 +341,13 @@ fn variants(v: &[P2], rng: &mut Rng) -> Vec<Vec<P2>> {
         col.insert(i + 1, ((a.0 + b.0) / 2, (a.1 + b.1) / 2));
         out.push(col);
     }
+    // a vertex listed twice (or three times), and the first point repeated at the end
+    let j = rng.below(n as u64) as usize;
+    let mut dup = v.to_vec();
+    dup.insert(j, v[j]);
+    if rng.chance(1, 4) { dup.insert(j, v[j]); }
+    out.push(dup);
+    if rng.coin() { let mut cl = v.to_vec(); cl.push(v[0]); out.push(cl); }
     out
 }
 
@@ -364,6 +378,12 @@ pub fn gen(thorough: bool, rng: &mut Rng, out: &mut Vec<String>) {
                 continue;
             }
             out.push(poly_case(&v, &qgrid));
+            // every triangle also as each of its four-point listings with one vertex repeated / closed
+            if len == 3 {
+                for k in 0..3 { let mut w = v.clone(); w.insert(k, v[k]); out.push(poly_case(&w, &qgrid)); }
+                let mut w = v.clone(); w.push(v[0]); out.push(poly_case(&w, &qgrid));
+            }
+            if len == 4 && rng.below(8) == 0 { let k = rng.below(4) as usize; let mut w = v.clone(); w.insert(k, v[k]); out.push(poly_case(&w, &qgrid)); }
         }
     }
     // (2) the two historical failures and their neighbourhood
